@@ -18,15 +18,16 @@ PROP = dict(
                  shards="ncpu", gomaxprocs=1, env={"GODEBUG": "randseednop=0,asyncpreemptoff=1"}),
         ],
         crash_is_violation=True,
-        level_text="E1 (sequential) parts of C14, all executed on the real code. (a) Explicit-state BFS over the real server-perspective sentPacketHandler driven exactly like connection.go's run/send loop (ReceivedBytes before processing, DropPackets(Initial)+ReceivedPacket on the first Handshake packet, OnLossDetectionTimeout at the alarm, SendMode consulted before every datagram and obeyed: none / any / ack-only / PTO probe after QueueProbePacket) against a byte ledger: on every prefix, until a Handshake packet is processed, SendMode is none whenever sent >= 3 x received, so sent <= 3 x received + the one datagram begun below the limit. (b) Bounded-exhaustive input enumeration on the real TokenGenerator/tokenProtector and on the real baseServer.handleInitialImpl (decode -> validateToken -> Retry / INVALID_TOKEN / new connection, connection constructor replaced by a recorder): every single-bit flip, every pair of bit flips, every truncation, every one-byte extension, deletions/insertions/substitutions, re-sealing under other keys, splices of valid tokens, 14 addresses x 14 addresses, ages {0, lifetime-1s, lifetime, lifetime+1s} on a synctest virtual clock. Right level because both halves are finite quantifications (op sequences over a small alphabet around the 3x boundary; an explicit mutation list) over sequential code with no concurrency; the whole-connection wire-level part (E2) is a separate check.",
+        level_text="E1 (sequential) parts of C14, all executed on the real code. (a) Explicit-state BFS over the real server-perspective sentPacketHandler driven exactly like connection.go's run/send loop (ReceivedBytes before processing, DropPackets(Initial)+ReceivedPacket on the first Handshake packet, OnLossDetectionTimeout at the alarm, SendMode consulted before every datagram and obeyed: none / any / ack-only / PTO probe after QueueProbePacket) against a byte ledger: on every prefix, until a Handshake packet is processed, SendMode is none whenever sent >= 3 x received, so sent <= 3 x received + the one datagram begun below the limit. (b) Bounded-exhaustive input enumeration on the real TokenGenerator/tokenProtector and on the real baseServer.handleInitialImpl (decode -> validateToken -> Retry / INVALID_TOKEN / new connection, connection constructor replaced by a recorder): every single-bit flip, every pair of bit flips, every truncation, every one-byte extension, deletions/insertions/substitutions, re-sealing under other keys, splices of valid tokens, every ordered pair (issued for, presented from) of a 37-address set, ages {0, lifetime-1s, lifetime, lifetime+1s} on a synctest virtual clock. The address set holds unrelated addresses (other IPv4 / IPv6 host, other port, non-UDP, no IP) AND addresses in different encodings that share bytes: the 4-byte IPv4 reference address against its IPv4-mapped 16-byte form, against the 16-byte IPv6 addresses that carry the same four bytes at every byte position 0..12 (as suffix: NAT64 64:ff9b::/96, 6to4, ISATAP, IPv4-compatible, arbitrary prefix; in the middle: RFC 6052 /32 prefix; as prefix), against 16-byte addresses one bit / one byte off the IPv4-mapped prefix and the IPv4-mapped form of a neighbouring IPv4 address, IPv6 hosts sharing the interface identifier, and non-UDP addresses whose string equals the raw 4 / 16 IP bytes; tokens of the first 14 addresses get the full mutation enumeration, tokens of the 23 byte-sharing addresses are presented unmodified only. Right level because both halves are finite quantifications (op sequences over a small alphabet around the 3x boundary; an explicit mutation list) over sequential code with no concurrency; the whole-connection wire-level part (E2) is a separate check.",
         level_note="Trusted: the ledger / address-relation reference models in mc/c14, the reflective canonicaliser (connStats write-only counters, logger and qlogger are left out of the state key; times are keyed relative to the harness clock), the depth bounds, testing/synctest's virtual clock. The handler-level ledger counts what ReceivedBytes is told: whether connection.go reports every wire byte exactly once is the E2 part's business (read-only lead: queued undecryptable packets pass through handleOnePacket, hence ReceivedBytes, twice). Token nonces come from crypto/rand; no verdict depends on them (AEAD forgery by a listed mutation has probability 2^-128).",
         technique="explicit-state BFS over the real implementation with a ledger oracle; bounded-exhaustive input enumeration (token mutations x addresses x ages) with a reference relation",
         deadline=dict(quick=90, thorough=600),
-        rule="per target: sph = BFS transitions executed on the real sentPacketHandler; tok = calls into the real TokenGenerator (DecodeToken / ValidateRemoteAddr); srv = calls of the real baseServer.handleInitialImpl",
+        rule="per target: sph = BFS transitions executed on the real sentPacketHandler; tok = calls into the real TokenGenerator (DecodeToken of every mutation; ValidateRemoteAddr for every ordered pair of the 37-address set, per token kind); srv = calls of the real baseServer.handleInitialImpl (every mutation from the issue address; the unmodified token from each of the 37 addresses at each of 4 ages)",
         assumptions=[
             "the amplification limit is read as in the anchor: while the address is unvalidated and sent >= 3 x received nothing more may be begun (SendMode none); a datagram begun below the limit may overshoot it by at most its own size; a coalesced Initial+Handshake datagram counts as the one permitted packet",
             "the sentPacketHandler, pacer and congestion controller depend on time differences only (state keys are clock-translation invariant); the first skipped 1-RTT packet number, drawn from crypto/rand at construction, is pinned to its largest possible value",
-            "address identity of the reference model: UDP addresses by IP bytes (port ignored), other addresses by String(); for the same IP written in another byte form (4 vs 16 bytes) and for age == lifetime exactly the statement is silent and both behaviours are accepted",
+            "address identity of the reference model: UDP addresses by IP bytes (port ignored), other addresses by String(); for the same IP written in another byte form (the 4-byte form vs its IPv4-mapped ::ffff:a.b.c.d 16-byte form, i.e. net.IP.Equal) and for age == lifetime exactly the statement is silent and both behaviours are accepted; every other IPv6 address that merely embeds the four bytes of an IPv4 address (NAT64, 6to4, ISATAP, IPv4-compatible, any window of the 16 bytes, near misses of the mapped prefix) is a different address: a token issued for the one must not validate for the other, in either direction",
+            "address-sharing is exercised around one IPv4 reference address (1.2.3.4) and one IPv6 reference address (2001:db8::1): comparisons that would confuse only other specific byte values are outside the bound",
             "Retry-token lifetime = the server's configured Config.maxRetryTokenAge() (handshake timeout), NEW_TOKEN lifetime = Transport.MaxTokenAge as passed to the server; default and short values are both used",
         ],
     )
